@@ -1,5 +1,8 @@
 use crate::runner::Property;
 
+pub mod c01;
+pub mod c03;
+pub mod c06;
 pub mod c07;
 pub mod c08;
 pub mod c09;
@@ -8,11 +11,14 @@ pub mod c19;
 pub mod c20;
 
 pub fn all_ids() -> Vec<&'static str> {
-    vec!["C07", "C08", "C09", "C15", "C19", "C20"]
+    vec!["C01", "C03", "C06", "C07", "C08", "C09", "C15", "C19", "C20"]
 }
 
 pub fn get(id: &str) -> Option<Property> {
     match id {
+        "C01" => Some(c01::property()),
+        "C03" => Some(c03::property()),
+        "C06" => Some(c06::property()),
         "C07" => Some(c07::property()),
         "C08" => Some(c08::property()),
         "C09" => Some(c09::property()),
